@@ -21,7 +21,9 @@ Proof.
   destruct (vm t a b s) as [trs ws cfee|cfee|cfee].
   - destruct (cfee <? 0); [inversion H|].
     destruct (fold_left vm_transfer trs (s, a, b)) as [[s1 a1] b1].
-    match type of H with (if ?c then _ else _) = _ => destruct c end; inversion H; subst; auto.
+    match type of H with (if ?c then _ else _) = _ => destruct c end; [|inversion H; subst; auto].
+    match type of H with (if ?c then _ else _) = _ => destruct c end; [inversion H|].
+    destruct trs; inversion H; subst; auto.
   - destruct (cfee <? 0); inversion H; subst; auto.
   - inversion H.
 Qed.
